@@ -7,7 +7,10 @@
 //! descriptors 0/1/2, the whole descriptor table, pid/ppid/pgid/uid/gid/umask, and what
 //! could be read from stdin.  A fixed token is written to stdout and to stderr so that
 //! the data path of every stdio mode can be checked.  Exit status: `--exit=N` (first such
-//! argument after argv[0]), else 0.
+//! argument after argv[0]), else 0.  `--linger=MS`: sleep that long after stdin reached EOF
+//! (the program is still running for a known time after its stdin was closed); `--kill=SIG`:
+//! end by that signal instead of exiting.  Since stdin is read to EOF first, a parent holding
+//! the write end of a stdin pipe decides when the program ends.
 
 use serde_json::{json, Value};
 use std::os::unix::ffi::OsStringExt;
@@ -156,6 +159,9 @@ pub fn helper_main() -> ! {
                 }
             }
         }
+        let num_flag = |name: &[u8]| -> Option<i32> { argv.iter().skip(1).find_map(|a| a.strip_prefix(name).and_then(|r| String::from_utf8_lossy(r).parse::<i32>().ok())) };
+        let linger = num_flag(b"--linger=");
+        let kill = num_flag(b"--kill=");
         let dump = json!({
             "proto": PROTO,
             "argv": argv.iter().map(|a| hex(a)).collect::<Vec<_>>(),
@@ -182,6 +188,14 @@ pub fn helper_main() -> ! {
                 break;
             }
             off += n as usize;
+        }
+        if let Some(ms) = linger {
+            libc::usleep((ms.max(0) as u32) * 1000);
+        }
+        if let Some(sig) = kill {
+            libc::signal(sig, libc::SIG_DFL);
+            libc::kill(libc::getpid(), sig);
+            libc::pause();
         }
         libc::_exit(code);
     }
